@@ -261,6 +261,9 @@ func checkC13(c *Ctx, r *Report) {
 		}
 	}
 	r.Floor("rolling appender state fields", nstate, 3)
+	// "every write lands whole in exactly one file": a writer may still hold the file rotated out a moment ago, so
+	// the rotation step may close only a file that was handed over at an earlier rotation (shared with C05.fd-bound)
+	r.include("C13.handover/", "file-ownership", func(sub *Report) { c.checkFdBound(sub, ro) })
 }
 
 func recvNamed(f *ssa.Function) *types.Named {
